@@ -677,6 +677,12 @@ theorem tables_step {s : St} (h : Tables s) (op : Op) : Tables (step s op).1 := 
     | pick call pn m ctx dl req => exact tables_opPick h call pn m ctx dl req
     | ctxdone call => exact tables_opCtxDone h call
     | done call err reply => exact tables_opDone h call err reply
+    | pickHold call pn m ctx dl req =>
+      exact opPickHold_cases _ s call pn m ctx dl req h (fun _ => tables_of_same h ⟨rfl, rfl, rfl, rfl, rfl, rfl, rfl⟩)
+        (tables_opPick h call pn m ctx dl req)
+    | resume call =>
+      exact opResume_cases _ s call h (fun _ => tables_of_same h ⟨rfl, rfl, rfl, rfl, rfl, rfl, rfl⟩)
+        (fun _ _ _ _ => tables_newSubConn (tables_of_same h ⟨rfl, rfl, rfl, rfl, rfl, rfl, rfl⟩))
   generalize stepCore s op = r at h1 ⊢
   obtain ⟨s1, ev⟩ := r
   have h2 := tables_wake h1
